@@ -270,12 +270,19 @@ class MultiKeyLookup:
 
     def _mk_indices(self, obj: Any):
         all_keys = []  # for this object
-        for index_definition in self._idx_defs.values():
-            try:
-                tmp_keys = [_ObjRef(index_definition, k) for k in index_definition.mk_keys(obj)]
-                all_keys.extend(tmp_keys)
-            except (TypeError, AttributeError):  # noqa: PERF203
-                pass
+        try:
+            for index_definition in self._idx_defs.values():
+                try:
+                    tmp_keys = [_ObjRef(index_definition, k) for k in index_definition.mk_keys(obj)]
+                    all_keys.extend(tmp_keys)
+                except (TypeError, AttributeError):  # noqa: PERF203
+                    pass
+        except Exception:
+            # e.g. duplicate key in a unique index: the object is rejected, undo what was already done for it
+            for obj_ref in all_keys:
+                obj_ref.index_dict.rm_key(obj_ref.key, obj)
+            self._objects.discard(obj)
+            raise
         self._object_ids[id(obj)].extend(all_keys)
 
     def _rm_indices(self, obj: Any):
